@@ -546,6 +546,30 @@ fn directed(keys: &Keys, mut rec: Recorder, tag: &str, blocks: &[(usize, u64, u6
             w.rec.oracle(held.is_empty(), "forged-cert-admitted", || format!("directed case {tag}: node {j} holds {held:?} for slot 1, signed by Byzantine validators only (19 % of the stake)"));
         }
     }
+    // agreement at the end of every directed case: at most one block per slot in the finalization reports (direct and
+    // implicit) of the correct nodes, and all reported blocks on one chain of the registered block tree
+    {
+        let mut fin_by_slot: BTreeMap<u64, BTreeSet<usize>> = BTreeMap::new();
+        for j in 0..n {
+            let Some(nd) = w.nodes[j].as_ref() else { continue };
+            if nd.dead { continue; }
+            for (finalized, implicit, _skipped) in nd.pool.verif_finalization_log() {
+                for (s, h) in finalized.into_iter().chain(implicit.into_iter()) { fin_by_slot.entry(s.inner()).or_default().insert(keys.hash_id[&h]); }
+            }
+        }
+        for (s, hs) in &fin_by_slot {
+            w.rec.oracle(hs.len() <= 1, "conflicting-finalization", || format!("directed case {tag}: slot {s} reported finalized with different blocks {hs:?}"));
+        }
+        let fins: Vec<(u64, usize)> = fin_by_slot.iter().filter_map(|(s, hs)| hs.iter().next().map(|h| (*s, *h))).collect();
+        let anc = |mut x: usize, target: usize| -> bool { loop { if x == target { return true; } if x == 0 { return false; } x = w.blocks[&x].2; } };
+        for i in 0..fins.len() { for j2 in i + 1..fins.len() { let (a, b) = (fins[i].1, fins[j2].1); w.rec.oracle(anc(b, a), "finalized-not-one-chain", || format!("directed case {tag}: finalized blocks {:?} and {:?} are not on one chain", fins[i], fins[j2])); } }
+    }
+    if tag == "sibling-of-finalized-block-registered-late" {
+        let log: BTreeSet<(u64, usize)> = w.nodes[2].as_ref().map(|nd| nd.pool.verif_finalization_log().into_iter()
+            .flat_map(|(f, i, _)| f.into_iter().chain(i.into_iter())).map(|(s, h)| (s.inner(), keys.hash_id[&h])).collect()).unwrap_or_default();
+        let want: BTreeSet<(u64, usize)> = [(2u64, 20usize), (1, 10)].into_iter().collect();
+        w.rec.oracle(log == want, "directed-not-finalized", || format!("directed case {tag}: node 2 reports {log:?} finalized, the finalized chain is {want:?} (the sibling (2,21) and its parent (1,11) are not on it)"));
+    }
     let class = w.class;
     w.rec.end_case(class, true);
     w.rec
@@ -604,6 +628,15 @@ fn main() {
              D::Forged(0, CK::Nf, 1, 11, vec![3], vec![3], t), D::Forged(1, CK::Nf, 1, 11, vec![], vec![3], q), D::Forged(2, CK::Nf, 1, 11, vec![3], vec![], u64::MAX),
              D::Forged(0, CK::Skip, 1, 0, vec![3], vec![3], t), D::Forged(1, CK::Skip, 1, 0, vec![3], vec![], q), D::Forged(2, CK::Skip, 1, 0, vec![], vec![3], t),
              D::Pump(0), D::Pump(1), D::Pump(2)]);
+    // (4) the sibling of a finalized block is registered late: X and Y notarize b = (2,20) on (1,10); A learns the fast-
+    //     finalization of b from the certificate alone (no block, so nothing below slot 2 is decided at A), then the equivocating
+    //     leader's sibling c = (2,21), built on (1,11), reaches A's pool before b does (dissemination / repair order). Only b
+    //     and b's ancestors may be reported finalized; c's parent must stay undecided (seeded changes C01-6 / C01-13).
+    rec = directed(&keys, rec, "sibling-of-finalized-block-registered-late",
+        &[(10, 1, 0, 0), (11, 1, 0, 0), (20, 2, 1, 10), (21, 2, 1, 11)],
+        vec![D::Vb(0, 10), D::Vb(1, 10), D::Vb(0, 20), D::Vb(1, 20),
+             D::Nc(2, CK::Ff, 2, 20, vec![0, 1, 3], vec![]), D::Pump(2),
+             D::Pb(2, 21), D::Pump(2), D::Pb(2, 11), D::Pb(2, 20), D::Pump(2), D::Pb(2, 10), D::Pump(2), D::Pump(2)]);
     }
     let mut progress_stats: BTreeMap<String, u64> = BTreeMap::new();
     for _case in 0..cases {
@@ -657,7 +690,13 @@ fn main() {
                     // the two blocks of an equivocating leader are members of one hash group: they differ in a single byte (`advhash`)
                     if copies == 2 && (w.next_hash - 1) % advhash::GROUP as usize == advhash::GROUP as usize - 1 { w.next_hash += 1; }
                     for c in 0..copies {
-                        let h = w.new_block(s, ps, ph);
+                        // the second block of an equivocating leader may extend another older block than the first one does
+                        // (siblings with different parents: what a node registers late must not decide anything, C01-6 / C01-13)
+                        let (cps, cph) = if c == 1 && rng.chance(1, 2) {
+                            let alt: Vec<(u64, usize)> = w.blocks.iter().filter(|(_, b)| b.0 < s).map(|(h, b)| (b.0, *h)).collect();
+                            *rng.pick(&alt)
+                        } else { (ps, ph) };
+                        let h = w.new_block(s, cps, cph);
                         if c == 0 { firsth = h; }
                         for dest in 0..n {
                             if w.nodes[dest].is_none() { continue; }
